@@ -449,7 +449,7 @@ def cache_signatures(inference_state, context, bracket_leaf, code_lines, user_po
     line_index = user_pos[0] - 1
 
     before_cursor = code_lines[line_index][:user_pos[1]]
-    other_lines = code_lines[bracket_leaf.start_pos[0]:line_index]
+    other_lines = code_lines[bracket_leaf.start_pos[0] - 1:line_index]
     whole = ''.join(other_lines + [before_cursor])
     before_bracket = re.match(r'.*\(', whole, re.DOTALL)
 
